@@ -44,8 +44,16 @@ def scenario(rng, kind):
         p_late = rng.choice([0, 0.1, 0.3])
         p_dup = rng.choice([0, 0.2])
 
+        p_foreign = rng.choice([0, 0, 0.12])
+
         def s2c(data, now, n):
             x = rng.random()
+            if p_foreign and rng.random() < p_foreign and b"<DESCN>" in data:
+                # the spa's answer to ANOTHER client of the same spa reaches this endpoint while our own answer is
+                # lost: it is not a reply that was delivered for our request
+                import re as _re
+                s.inject(_re.sub(rb"<DESCN>.*?</DESCN>", b"<DESCN>IOSanother-client</DESCN>", data, count=1), delay=0.012)
+                return []
             if x < p_loss:
                 return []
             if x < p_loss + p_late:
